@@ -471,9 +471,23 @@ def _compare_shift(inp, io, mo):
         return None if a == mo else "implementation and model disagree (exception)"
     # the model's value for the unshifted pair is, by C06_shift_invariant, its value for the shifted pair
     for k, what in ((0, "original"), (1, "shifted")):
-        if not _num_eq(inp, mo["val"][0], io["val"][k]):
+        if k == 1 and not _measure(inp)["closed"]:
+            ok = abs(frac(mo["val"][0]) - frac(io["val"][1])) <= _shift_tol(inp)     # GEOS's noise grows with the offset
+        else:
+            ok = _num_eq(inp, mo["val"][0], io["val"][k])
+        if not ok:
             return f"compute_affinity on the {what} pair = {float(frac(io['val'][k]))!r}, model {float(frac(mo['val'][0]))!r}"
     return None
+
+
+def _shift_tol(inp):
+    """GEOS computes in absolute coordinates (for a buffered side: in the space scaled by 1 / time_buffer), so the noise
+    of its overlay grows with their magnitude M: observed up to 0.15 * 2^-40 * M at sharp mitre joins (thorough tier,
+    follow-up 2); the tolerance is 2^-37 relative to M"""
+    info = _measure(inp)
+    tmax = max(_raw_time_bounds(g)[1] for g in (inp["g1"], inp["g2"])) + max(frac(inp["d"]), Fraction(0))
+    scaled = any(kd == "buffered" for kd in info["plan_kinds"]) and 0 < frac(inp["tb"]) < 1
+    return 8 * TOL * max(Fraction(1), tmax / frac(inp["tb"]) if scaled else tmax)
 
 
 # ---------------------------------------------------------------- monitors
@@ -580,7 +594,7 @@ def _holds_shift(ctx, inp, io):
     if info["closed"]:
         ok = a == b
     else:
-        ok = abs(a - b) <= TOL
+        ok = abs(a - b) <= _shift_tol(inp)
     if not ok:
         return f"shift: affinity {float(a)!r} becomes {float(b)!r} after shifting both geometries by {inp['d']} s"
     return None
